@@ -3,6 +3,7 @@ Helper lemmas for C33 (loop invariants of `Model.Sync.loop`, the shape of a non-
 answer of `locateHeaders`).  The property theorems are in `Props/C33.lean`.
 -/
 import BytomModel.Model.Sync
+import Mathlib.Tactic.Ring
 
 namespace BytomModel.Lemmas.Sync
 open BytomModel.Model.Sync
@@ -206,5 +207,47 @@ theorem fetch_prefix {hasBlock : Nat → Bool} {tmo : Nat} :
           have := (ih _ _ hr).1
           simp [List.prefix_cons_iff, this]
 
+
+theorem loop_progression {c : Chain} (w : WF c) {stop : Header} {skip : Nat} (hs : stop.height + skip < two64) :
+    ∀ (fuel index : Nat) (l : List Header), index < stop.height → loop c stop skip fuel index = some l →
+      (∀ k (hk : k < l.length), l[k] = stop ∨ l[k].height = index + (k + 1) * (skip + 1)) ∧
+      (l.getLast? = some stop ∨ l.length = fuel) := by
+  intro fuel
+  induction fuel with
+  | zero => intro index l _ h; simp [loop] at h; simp [h]
+  | succ n ih =>
+    intro index l hi h
+    have hadv : advance index skip = index + skip + 1 := by
+      unfold advance; apply Nat.mod_eq_of_lt; omega
+    unfold loop at h
+    simp only at h
+    split at h
+    · cases h
+      exact ⟨fun k hk => Or.inl (by simp at hk; subst hk; rfl), Or.inl rfl⟩
+    · rename_i hlt
+      split at h
+      · cases h
+      · rename_i hd hb
+        split at h
+        · cases h
+        · rename_i rest hr
+          cases h
+          have hh := (w.atHeight _ _ hb).1
+          have ⟨p1, p2⟩ := ih _ _ (by omega) hr
+          refine ⟨?_, ?_⟩
+          · intro k hk
+            cases k with
+            | zero => right; simp; omega
+            | succ k =>
+              simp only [List.getElem_cons_succ]
+              rcases p1 k (by simpa using hk) with e | e
+              · exact Or.inl e
+              · right; rw [e, hadv]; ring
+          · rcases p2 with e | e
+            · left
+              cases rest with
+              | nil => simp at e
+              | cons a r => simpa [List.getLast?_cons_cons] using e
+            · right; simp [e]
 
 end BytomModel.Lemmas.Sync
